@@ -331,3 +331,419 @@ Proof.
       split; [rewrite A1, Edata; exact Hdata|]. split; [exact Hoth|]. split; [exact Hnoth|].
       intros _. apply Hdone. discriminate.
 Qed.
+
+(* ------------------------------------------------------------------------------------------ *)
+(* Part 4: one poll of the request's read side                                                 *)
+(* ------------------------------------------------------------------------------------------ *)
+
+Definition isw (h : holder) : bool := match h with HWriter _ => true | _ => false end.
+
+(* what the request side relies on: nobody holds the lock = no tenure in progress; the request holds it =
+   its lock future exists and the flush in progress is not empty *)
+Definition Rinv (h : holder) (part : bytes) (r : rstate) : Prop :=
+  match h with
+  | HNone => part = []
+  | HRequest => rlock r = true /\ (part <> [] \/ output_buffer (rsp r) <> [])
+  | HWriter _ => True
+  end.
+
+(* the effect of request-side activity: complete flushes fl, then the flush in progress part' *)
+Definition Rstep (h : holder) (part : bytes) (r : rstate) (w : world)
+                 (h' : holder) (part' : bytes) (r' : rstate) (w' : world) (fl : list bytes) : Prop :=
+  (forall pre, wlog w = pre ++ part -> wlog w' = pre ++ concat fl ++ part') /\
+  Forall (fun b : bytes => b <> []) fl /\
+  Rinv h' part' r' /\
+  sreq (rsp r') = sreq (rsp r) /\
+  (isw h = true -> h' = h /\ fl = [] /\ part' = part) /\
+  (isw h = false -> isw h' = false).
+
+Lemma Rinv_indep h part r r2 : h <> HRequest -> Rinv h part r -> Rinv h part r2.
+Proof. destruct h; [tauto|tauto|contradiction]. Qed.
+
+Lemma Rstep_same h part r w r' w' : wlog w' = wlog w -> Rinv h part r' -> sreq (rsp r') = sreq (rsp r) ->
+  Rstep h part r w h part r' w' [].
+Proof.
+  intros Hl Hi Hq. split; [intros pre Hp; rewrite Hl; exact Hp|]. split; [constructor|].
+  split; [exact Hi|]. split; [exact Hq|]. split; [intros _; repeat split|tauto].
+Qed.
+
+Lemma Rstep_trans h part r w h1 part1 r1 w1 w1' h2 part2 r2 w2 fl1 fl2 :
+  Rstep h part r w h1 part1 r1 w1 fl1 -> wlog w1' = wlog w1 ->
+  Rstep h1 part1 r1 w1' h2 part2 r2 w2 fl2 ->
+  Rstep h part r w h2 part2 r2 w2 (fl1 ++ fl2).
+Proof.
+  intros (A1 & A2 & A3 & A4 & A5 & A6) Hl (B1 & B2 & B3 & B4 & B5 & B6).
+  split.
+  { intros pre Hp. specialize (A1 pre Hp). specialize (B1 (pre ++ concat fl1)).
+    rewrite Hl, A1, <- app_assoc in B1. specialize (B1 eq_refl). rewrite B1, concat_app, <- !app_assoc. reflexivity. }
+  split; [apply Forall_app; split; assumption|]. split; [exact B3|]. split; [congruence|].
+  split.
+  - intros Hw. destruct (A5 Hw) as (-> & -> & ->). destruct (B5 Hw) as (-> & -> & ->). repeat split.
+  - intros Hw. apply B6. apply A6. exact Hw.
+Qed.
+
+Lemma Rstep_src h part r r0 w h' part' r' w' fl : sreq (rsp r) = sreq (rsp r0) ->
+  Rstep h part r w h' part' r' w' fl -> Rstep h part r0 w h' part' r' w' fl.
+Proof.
+  intros Hq (A1 & A2 & A3 & A4 & A5 & A6). repeat split; try assumption; try congruence; apply A5; assumption.
+Qed.
+
+Lemma po_l_nonwriter f r h w x o : isw h = false -> output_buffer (rsp r) = x :: o ->
+  poll_output_l (S f) r h w =
+    match t_poll_write (x :: o) w with
+    | (PReady (inl n), w') =>
+      if n =? 0 then (PReady (inr EK_WriteZero), mkR (rsp r) (rwriteable r) true, HRequest, w')
+      else poll_output_l f (mkR (consume_output (rsp r) n) (rwriteable r) true) HRequest w'
+    | (PReady (inr k), w') => (PReady (inr k), mkR (rsp r) (rwriteable r) true, HRequest, w')
+    | (PWake, w') => (PWake, mkR (rsp r) (rwriteable r) true, HRequest, w')
+    | (PBlock, w') => (PBlock, r, HRequest, w')
+    end.
+Proof. intros Hw Ho. cbn [poll_output_l]. rewrite Ho. destruct h; [reflexivity|discriminate Hw|reflexivity]. Qed.
+
+Lemma poll_output_l_step fuel : forall r h w part p r' h' w',
+  Rinv h part r -> poll_output_l fuel r h w = (p, r', h', w') ->
+  exists fl part', Rstep h part r w h' part' r' w' fl /\ (forall u, p = PReady (inl u) -> h' <> HRequest).
+Proof.
+  induction fuel as [|f IH]; intros r h w part p r' h' w' Hi E.
+  { cbn [poll_output_l] in E. injection E as <- <- <- <-. exists [], part.
+    split; [apply Rstep_same; [reflexivity|exact Hi|reflexivity]|]. intros u Hu. discriminate Hu. }
+  destruct (output_buffer (rsp r)) as [|x o] eqn:Eo.
+  - (* nothing to flush: the lock future is dropped *)
+    cbn [poll_output_l] in E. rewrite Eo in E. injection E as <- <- <- <-.
+    destruct h as [|j|].
+    + exists [], part. split; [apply Rstep_same; [reflexivity|exact Hi|reflexivity]|]. intros u _. discriminate.
+    + exists [], part. split; [apply Rstep_same; [reflexivity|exact I|reflexivity]|]. intros u _. discriminate.
+    + destruct Hi as [Hl [Hp|Hp]]; [|rewrite Eo in Hp; contradiction].
+      exists [part], []. split; [|intros u _; discriminate].
+      split; [intros pre Hpre; rewrite Hpre; cbn [concat]; rewrite !app_nil_r; reflexivity|].
+      split; [constructor; [exact Hp|constructor]|]. split; [reflexivity|]. split; [reflexivity|].
+      split; [intros X; discriminate X|reflexivity].
+  - destruct (isw h) eqn:Ew.
+    + (* a writer holds the lock *)
+      destruct h as [|j|]; try discriminate Ew. cbn [poll_output_l] in E. rewrite Eo in E.
+      injection E as <- <- <- <-. exists [], part.
+      split; [apply Rstep_same; [reflexivity|exact I|reflexivity]|]. intros u Hu. discriminate Hu.
+    + rewrite (po_l_nonwriter f r h w x o Ew Eo) in E. rewrite <- Eo in E.
+      set (out := output_buffer (rsp r)) in *.
+      assert (Hne : out <> []) by (rewrite Eo; discriminate).
+      assert (Hstay : forall k w1, wlog w1 = wlog w ->
+                exists fl part', Rstep h part r w HRequest part' (mkR (rsp r) (rwriteable r) true) w1 fl /\
+                  (forall u : unit, @PReady (unit + N) (inr k) = PReady (inl u) -> HRequest <> HRequest)).
+      { intros k w1 Hl. exists [], part. split; [|intros u Hu; discriminate Hu].
+        split; [intros pre Hp; rewrite Hl; exact Hp|]. split; [constructor|].
+        split; [cbn [Rinv rlock rsp]; split; [reflexivity|right; exact Hne]|]. split; [reflexivity|].
+        split; [rewrite Ew; discriminate|reflexivity]. }
+      destruct (t_poll_write out w) as [p1 w1] eqn:ET.
+      destruct (t_poll_write_cases _ _ _ _ ET) as (Hio & _ & _ & _ & _ & Hp).
+      pose proof (io_rel_wlog _ _ _ Hio) as Hlg.
+      destruct p1 as [[n|k]| |].
+      * destruct (N.eqb_spec n 0) as [Hn0|Hn0].
+        { injection E as <- <- <- <-. apply Hstay. rewrite Hlg. subst n. rewrite take_0. apply app_nil_r. }
+        destruct Hp as [Hn _].
+        assert (Hi1 : Rinv HRequest (part ++ take n out) (mkR (consume_output (rsp r) n) (rwriteable r) true)).
+        { cbn [Rinv rlock]. split; [reflexivity|]. left. intros X. apply app_eq_nil in X. destruct X as [_ X].
+          apply (f_equal len) in X. rewrite len_take, len_nil in X. apply len_pos_nonnil in Hne. lia. }
+        destruct (IH _ _ _ _ _ _ _ _ Hi1 E) as (fl & part' & (A1 & A2 & A3 & A4 & A5 & A6) & Hpr).
+        exists fl, part'. split; [|exact Hpr].
+        split; [intros pre Hpre; apply A1; rewrite Hlg, Hpre, <- app_assoc; reflexivity|].
+        split; [exact A2|]. split; [exact A3|].
+        split; [rewrite A4; cbn [rsp]; apply consume_output_req|].
+        split; [rewrite Ew; discriminate|]. intros _. apply A6. reflexivity.
+      * injection E as <- <- <- <-. destruct (Hstay k w1) as (fl & part' & H1 & H2);
+          [rewrite Hlg; apply app_nil_r|]. exists fl, part'. split; [exact H1|]. intros u Hu. discriminate Hu.
+      * injection E as <- <- <- <-. destruct (Hstay 0 w1) as (fl & part' & H1 & H2);
+          [rewrite Hlg; apply app_nil_r|]. exists fl, part'. split; [exact H1|]. intros u Hu. discriminate Hu.
+      * contradiction.
+Qed.
+
+Lemma input_loop_l_step maxc fuel : forall dest new r h w part p r' h' w',
+  h <> HRequest -> Rinv h part r -> input_loop_l maxc fuel dest new r h w = (p, r', h', w') ->
+  exists fl part', Rstep h part r w h' part' r' w' fl.
+Proof.
+  induction fuel as [|f IH]; intros dest new r h w part p r' h' w' Hh Hi E.
+  { cbn [input_loop_l] in E. injection E as <- <- <- <-. exists [], part.
+    apply Rstep_same; [reflexivity|exact Hi|reflexivity]. }
+  cbn [input_loop_l] in E. pose proof (sparse_req maxc (rsp r) new dest) as Hq.
+  destruct (sparse maxc (rsp r) new dest) as [p1 s|p1 e s|n].
+  - destruct (s_end s || (0 <? s_stream s)).
+    + injection E as <- <- <- <-. exists [], part.
+      apply Rstep_same; [reflexivity|eapply Rinv_indep; eassumption|].
+      destruct (negb (rwriteable r) && is_final_stream (mkR p1 (rwriteable r) (rlock r))); exact Hq.
+    + set (r2 := mkR (compress p1) (rwriteable r) (rlock r)) in *.
+      assert (Hq2 : sreq (rsp r2) = sreq (rsp r)) by exact Hq.
+      assert (Hi2 : Rinv h part r2) by (eapply Rinv_indep; eassumption).
+      destruct (poll_output_l (S f) r2 h w) as [[[po r3] h3] w0] eqn:EP.
+      destruct (poll_output_l_step _ _ _ _ _ _ _ _ _ Hi2 EP) as (fl1 & part1 & S1 & Hpo).
+      apply (Rstep_src _ _ _ r _ _ _ _ _ _ Hq2) in S1.
+      assert (Hdone : forall w1, wlog w1 = wlog w0 -> exists fl part', Rstep h part r w h3 part' r3 w1 fl).
+      { intros w1 Hl. exists (fl1 ++ []), part1. eapply Rstep_trans; [exact S1|reflexivity|].
+        apply Rstep_same; [exact Hl|apply S1|reflexivity]. }
+      destruct po as [[u|k]| |].
+      * destruct (t_poll_read (sinput_space (rsp r3)) w0) as [pr w1] eqn:ER.
+        destruct (t_poll_read_spec _ _ _ _ ER) as (Hl & _).
+        destruct pr as [[b|k]| |].
+        -- destruct b as [|y b'].
+           ++ injection E as <- <- <- <-. apply Hdone. exact Hl.
+           ++ assert (Hh3 : h3 <> HRequest) by (apply (Hpo u); reflexivity).
+              assert (Hi3 : Rinv h3 part1 r3) by apply S1.
+              destruct (IH _ _ _ _ _ _ _ _ _ _ Hh3 Hi3 E) as (fl2 & part2 & S2).
+              exists (fl1 ++ fl2), part2. eapply Rstep_trans; [exact S1|exact Hl|exact S2].
+        -- injection E as <- <- <- <-. apply Hdone. exact Hl.
+        -- injection E as <- <- <- <-. apply Hdone. exact Hl.
+        -- injection E as <- <- <- <-. apply Hdone. exact Hl.
+      * injection E as <- <- <- <-. apply Hdone. reflexivity.
+      * injection E as <- <- <- <-. apply Hdone. reflexivity.
+      * injection E as <- <- <- <-. apply Hdone. reflexivity.
+  - injection E as <- <- <- <-. exists [], part.
+    apply Rstep_same; [reflexivity|eapply Rinv_indep; eassumption|exact Hq].
+  - injection E as <- <- <- <-. exists [], part.
+    apply Rstep_same; [reflexivity|exact Hi|reflexivity].
+Qed.
+
+Lemma poll_input_l_step maxc fuel dest r h w part p r' h' w' :
+  Rinv h part r -> poll_input_l maxc fuel dest r h w = (p, r', h', w') ->
+  exists fl part', Rstep h part r w h' part' r' w' fl.
+Proof.
+  intros Hi E.
+  assert (Hsame : (p, r', h', w') = (PReady (inl (0, [])), r, h, w) -> exists fl part', Rstep h part r w h' part' r' w' fl).
+  { intros X. injection X as -> -> -> ->. exists [], part. apply Rstep_same; [reflexivity|exact Hi|reflexivity]. }
+  assert (Hcons : forall c, (PReady (inl (N.min c (len (stream_buffer (rsp r))), take (N.min c (len (stream_buffer (rsp r)))) (stream_buffer (rsp r)))),
+                    mkR (consume_stream (rsp r) (N.min c (len (stream_buffer (rsp r))))) (rwriteable r) (rlock r), h, w) = (p, r', h', w') ->
+                    exists fl part', Rstep h part r w h' part' r' w' fl).
+  { intros c X. injection X as <- <- <- <-. exists [], part. apply Rstep_same; [reflexivity| |reflexivity].
+    destruct h; [exact Hi|exact I|exact Hi]. }
+  assert (Hpoll : match poll_output_l fuel r h w with
+                  | (PReady (inl _), r1, h1, w1) => input_loop_l maxc fuel dest [] r1 h1 w1
+                  | (PReady (inr k), r1, h1, w1) => (PReady (inr k), r1, h1, w1)
+                  | (PWake, r1, h1, w1) => (PWake, r1, h1, w1)
+                  | (PBlock, r1, h1, w1) => (PBlock, r1, h1, w1)
+                  end = (p, r', h', w') -> exists fl part', Rstep h part r w h' part' r' w' fl).
+  { clear E. intros E. destruct (poll_output_l fuel r h w) as [[[po r1] h1] w1] eqn:EP.
+    destruct (poll_output_l_step _ _ _ _ _ _ _ _ _ Hi EP) as (fl1 & part1 & S1 & Hpo).
+    destruct po as [[u|k]| |]; try (injection E as <- <- <- <-; exists fl1, part1; exact S1).
+    assert (Hh1 : h1 <> HRequest) by (apply (Hpo u); reflexivity).
+    assert (Hi1 : Rinv h1 part1 r1) by apply S1.
+    destruct (input_loop_l_step maxc _ _ _ _ _ _ _ _ _ _ _ Hh1 Hi1 E) as (fl2 & part2 & S2).
+    exists (fl1 ++ fl2), part2. eapply Rstep_trans; [exact S1|reflexivity|exact S2]. }
+  unfold poll_input_l in E. cbv zeta in E.
+  destruct dest as [[|pp]|]; destruct (stream_buffer (rsp r)) as [|y sb] eqn:Esb.
+  - apply Hsame. symmetry. exact E.
+  - apply Hsame. symmetry. exact E.
+  - apply Hpoll. exact E.
+  - apply (Hcons (N.pos pp)). exact E.
+  - apply Hpoll. exact E.
+  - apply Hsame. symmetry. exact E.
+Qed.
+
+(* ------------------------------------------------------------------------------------------ *)
+(* Part 5: the invariant of the whole system                                                   *)
+(* ------------------------------------------------------------------------------------------ *)
+
+Lemma upd_writer_nth_gen i w : forall (l : list wr) s k,
+  nth_error (map (fun p : N * wr => if fst p =? i then w else snd p) (combine (map N.of_nat (seq s (length l))) l)) k =
+  match nth_error l k with Some x => Some (if N.of_nat (s + k) =? i then w else x) | None => None end.
+Proof.
+  induction l as [|a l IH]; intros s k.
+  - destruct k; reflexivity.
+  - cbn [length seq map combine]. destruct k as [|k].
+    + cbn [nth_error fst snd]. rewrite Nat.add_0_r. reflexivity.
+    + cbn [nth_error]. rewrite IH. replace (S s + k)%nat with (s + S k)%nat by lia. reflexivity.
+Qed.
+
+(* the characterisation of upd_writer *)
+Lemma upd_writer_nth i w l k : nth_error (upd_writer i w l) k =
+  match nth_error l k with Some x => Some (if N.of_nat k =? i then w else x) | None => None end.
+Proof. unfold upd_writer. rewrite upd_writer_nth_gen. reflexivity. Qed.
+
+Lemma upd_writer_length i w l : length (upd_writer i w l) = length l.
+Proof. unfold upd_writer. rewrite map_length, combine_length, map_length, seq_length. lia. Qed.
+
+Lemma chunks_of_app i a b : chunks_of i (a ++ b) = chunks_of i a ++ chunks_of i b.
+Proof. unfold chunks_of. apply flat_map_app. Qed.
+
+Lemma chunks_of_TW_same i cs : chunks_of i (map (TW i) cs) = cs.
+Proof.
+  unfold chunks_of. induction cs as [|c t IH]; [reflexivity|].
+  cbn [map flat_map]. rewrite N.eqb_refl, IH. reflexivity.
+Qed.
+
+Lemma chunks_of_TW_other i j cs : j <> i -> chunks_of i (map (TW j) cs) = [].
+Proof.
+  intros Hne. unfold chunks_of. induction cs as [|c t IH]; [reflexivity|].
+  cbn [map flat_map]. destruct (N.eqb_spec j i) as [X|X]; [contradiction|]. exact IH.
+Qed.
+
+Lemma chunks_of_TR i fl : chunks_of i (map TR fl) = [].
+Proof. unfold chunks_of. induction fl as [|c t IH]; [reflexivity|]. cbn [map flat_map]. exact IH. Qed.
+
+Lemma tb_app ws0 id a b : concat (map (tenure_bytes ws0 id) (a ++ b)) =
+  concat (map (tenure_bytes ws0 id) a) ++ concat (map (tenure_bytes ws0 id) b).
+Proof. rewrite map_app, concat_app. reflexivity. Qed.
+
+Lemma tb_TW ws0 id i cs : map (tenure_bytes ws0 id) (map (TW i) cs) = map (rec_of (wtype ws0 i) id) cs.
+Proof. rewrite map_map. reflexivity. Qed.
+
+Lemma tb_TR ws0 id fl : map (tenure_bytes ws0 id) (map TR fl) = fl.
+Proof. rewrite map_map. exact (map_id fl). Qed.
+
+Lemma nth_wtype ws0 i w0 : nth_error ws0 (N.to_nat i) = Some w0 -> wtype ws0 i = wr_type w0.
+Proof. intros H. unfold wtype. rewrite (nth_error_nth _ _ dummy_wr H). reflexivity. Qed.
+
+Lemma other_dec h i : other h i \/ ~ other h i.
+Proof.
+  destruct h as [|j|].
+  - right. intros [X _]. apply X. reflexivity.
+  - destruct (N.eq_dec j i) as [E|E].
+    + right. intros [_ X]. apply X. subst. reflexivity.
+    + left. split; [discriminate|]. intros X. injection X as X. contradiction.
+  - left. split; discriminate.
+Qed.
+
+Section Sys.
+Variable ws0 : list wr.
+Variable id : N.
+Variable lg0 : bytes.
+
+Definition WF (h : holder) (ts : list tenure) (cur : N -> bytes) (written : N -> N) (i : N) (w0 w : wr) : Prop :=
+  wr_type w = wr_type w0 /\
+  wr_data w0 = concat (chunks_of i ts) ++ cur i ++ wr_data w /\
+  (wr_started w = false -> cur i = [] /\ wr_cur w = []) /\
+  (wr_started w = true -> 0 < len (cur i) <= 65535 /\
+     written i <= len (rec_of (wr_type w0) id (cur i)) /\
+     concat (wr_cur w) = drop (written i) (rec_of (wr_type w0) id (cur i)) /\
+     (~ holds h i -> written i = 0)) /\
+  (wr_done w = true -> wr_started w = false -> wr_data w = []).
+
+Definition HOLD (ws : list wr) (h : holder) (r : rstate) (part : bytes) (cur : N -> bytes) (written : N -> N) : Prop :=
+  match h with
+  | HNone => part = []
+  | HWriter i => exists w, nth_error ws (N.to_nat i) = Some w /\ wr_started w = true /\
+                           part = take (written i) (rec_of (wtype ws0 i) id (cur i))
+  | HRequest => rlock r = true
+  end.
+
+Definition SInv (ws : list wr) (h : holder) (r : rstate) (wd : world)
+                (ts : list tenure) (part : bytes) (cur : N -> bytes) (written : N -> N) : Prop :=
+  wlog wd = lg0 ++ concat (map (tenure_bytes ws0 id) ts) ++ part /\
+  Forall (tenure_ok (len ws0)) ts /\
+  length ws = length ws0 /\
+  r_id (sreq (rsp r)) = id /\
+  (forall i w0 w, nth_error ws0 (N.to_nat i) = Some w0 -> nth_error ws (N.to_nat i) = Some w ->
+     WF h ts cur written i w0 w) /\
+  HOLD ws h r part cur written /\
+  (h = HRequest -> part <> [] \/ output_buffer (rsp r) <> []).
+
+Lemma sys_writer_step ws h r wd ts part cur written idx fuel code w' h' wd' :
+  SInv ws h r wd ts part cur written -> idx < len ws ->
+  poll_writer fuel id idx (nth (N.to_nat idx) ws (mkWr 0 [] [] false true)) h wd = (code, w', h', wd') ->
+  (exists ts' part' cur' written', SInv (upd_writer idx w' ws) h' r wd' ts' part' cur' written') /\
+  ((wr_done (nth (N.to_nat idx) ws (mkWr 0 [] [] false true)) = true ->
+    wr_started (nth (N.to_nat idx) ws (mkWr 0 [] [] false true)) = false) ->
+   code <> 3 -> wr_done w' = true -> wr_started w' = false).
+Proof.
+  intros (I1 & I2 & I3 & I4 & I5 & I6 & I7) Hidx E.
+  assert (Hlt : (N.to_nat idx < length ws)%nat) by (unfold len in Hidx; lia).
+  destruct (nth_error ws (N.to_nat idx)) as [w|] eqn:Ew; [|apply nth_error_None in Ew; lia].
+  destruct (nth_error ws0 (N.to_nat idx)) as [w0|] eqn:Ew0; [|apply nth_error_None in Ew0; lia].
+  assert (Hn : nth (N.to_nat idx) ws (mkWr 0 [] [] false true) = w) by (apply nth_error_nth; exact Ew).
+  rewrite Hn in *. clear Hn.
+  destruct (I5 idx w0 w Ew0 Ew) as (F1 & F2 & F3 & F4 & F5).
+  pose proof (nth_wtype _ _ _ Ew0) as Hty.
+  assert (HWL : WL (wr_type w0) id idx w h (cur idx) (written idx) part).
+  { split; [exact F1|]. split; [exact F3|]. split; [exact F4|]. split; [exact F5|]. split.
+    - intros Hh. rewrite Hh in I6. cbn [HOLD] in I6. destruct I6 as (w2 & Ew2 & Hs2 & Hp2).
+      rewrite Ew in Ew2. injection Ew2 as <-. split; [exact Hs2|]. rewrite Hp2, Hty. reflexivity.
+    - intros Hh. rewrite Hh in I6. exact I6. }
+  destruct (poll_writer_step _ _ _ _ _ _ _ _ _ _ _ _ _ _ HWL E)
+    as (cs & c' & k' & part' & (T' & A' & B' & D' & Eh' & Fh') & Hlog & Hcs & Hdata & Hoth & Hnoth & Hdone).
+  split; [|exact Hdone].
+  set (cur' := fun j => if j =? idx then c' else cur j).
+  set (written' := fun j => if j =? idx then k' else written j).
+  exists (ts ++ map (TW idx) cs), part', cur', written'.
+  assert (Hci : cur' idx = c') by (unfold cur'; rewrite N.eqb_refl; reflexivity).
+  assert (Hki : written' idx = k') by (unfold written'; rewrite N.eqb_refl; reflexivity).
+  assert (Hcj : forall j, j <> idx -> cur' j = cur j /\ written' j = written j).
+  { intros j Hj. unfold cur', written'. destruct (N.eqb_spec j idx) as [X|X]; [contradiction|]. split; reflexivity. }
+  assert (Hcase : (other h idx /\ h' = h /\ cs = [] /\ part' = part) \/ (~ other h idx /\ (h' = HNone \/ h' = HWriter idx))).
+  { destruct (other_dec h idx) as [Ho|Ho]; [left; split; [exact Ho|apply Hoth; exact Ho]|right; split; [exact Ho|apply Hnoth; exact Ho]]. }
+  split.
+  { rewrite tb_app, tb_TW, Hty. specialize (Hlog (lg0 ++ concat (map (tenure_bytes ws0 id) ts))).
+    rewrite <- app_assoc in Hlog. rewrite (Hlog I1). rewrite <- !app_assoc. reflexivity. }
+  split.
+  { apply Forall_app. split; [exact I2|]. apply Forall_map. eapply Forall_impl; [|exact Hcs].
+    intros c0 Hc0. cbn [tenure_ok]. split; [|exact Hc0]. unfold len in *. lia. }
+  split; [rewrite upd_writer_length; exact I3|].
+  split; [exact I4|].
+  split.
+  { intros j w0j wj E0j Ej. rewrite upd_writer_nth in Ej.
+    destruct (nth_error ws (N.to_nat j)) as [wj0|] eqn:Ewj; [|discriminate Ej].
+    rewrite N2Nat.id in Ej. injection Ej as <-.
+    destruct (N.eqb_spec j idx) as [->|Hne].
+    - rewrite Ew0 in E0j. injection E0j as <-. unfold WF. rewrite Hci, Hki.
+      rewrite chunks_of_app, chunks_of_TW_same, concat_app.
+      split; [exact T'|]. split; [rewrite F2, <- !app_assoc; f_equal; exact Hdata|].
+      split; [exact A'|]. split; [exact B'|exact D'].
+    - destruct (Hcj j Hne) as [C1 C2].
+      destruct (I5 j w0j wj0 E0j Ewj) as (G1 & G2 & G3 & G4 & G5). unfold WF. rewrite C1, C2.
+      rewrite chunks_of_app, chunks_of_TW_other, app_nil_r by (intros X; apply Hne; symmetry; exact X).
+      split; [exact G1|]. split; [exact G2|]. split; [exact G3|]. split; [|exact G5].
+      intros Hst. destruct (G4 Hst) as (G41 & G42 & G43 & G44).
+      split; [exact G41|]. split; [exact G42|]. split; [exact G43|].
+      intros Hnh. apply G44. intros Hhj. apply Hnh. unfold holds in *.
+      destruct Hcase as [(_ & Hh & _)|(Ho & _)]; [rewrite Hh; exact Hhj|].
+      exfalso. apply Ho. rewrite Hhj. split; [discriminate|]. intros X. injection X as X. contradiction. }
+  split.
+  { destruct Hcase as [(Ho & Hh & _ & Hpp)|(Ho & [Hh|Hh])].
+    - rewrite Hh, Hpp. destruct h as [|j|].
+      + exact I6.
+      + assert (Hne : j <> idx). { intros X. destruct Ho as [_ O2]. apply O2. rewrite X. reflexivity. }
+        destruct (Hcj j Hne) as [C1 C2]. cbn [HOLD] in I6 |- *. destruct I6 as (w2 & E2 & S2 & P2).
+        exists w2. rewrite C1, C2. split; [|split; [exact S2|exact P2]].
+        rewrite upd_writer_nth, E2, N2Nat.id. destruct (N.eqb_spec j idx); [contradiction|reflexivity].
+      + exact I6.
+    - rewrite Hh. exact (Fh' Hh).
+    - rewrite Hh. destruct (Eh' Hh) as (Hs' & Hp'). cbn [HOLD]. exists w'.
+      split; [rewrite upd_writer_nth, Ew, N2Nat.id, N.eqb_refl; reflexivity|]. split; [exact Hs'|].
+      rewrite Hci, Hki, Hty. exact Hp'. }
+  intros Hr. destruct Hcase as [(Ho & Hh & _ & Hpp)|(Ho & [Hh|Hh])]; [|congruence|congruence].
+  rewrite Hpp. apply I7. congruence.
+Qed.
+
+Lemma SInv_Rinv ws h r wd ts part cur written : SInv ws h r wd ts part cur written -> Rinv h part r.
+Proof.
+  intros (I1 & I2 & I3 & I4 & I5 & I6 & I7). destruct h as [|j|]; cbn [Rinv HOLD] in *.
+  - exact I6.
+  - exact I.
+  - split; [exact I6|apply I7; reflexivity].
+Qed.
+
+Lemma sys_req_step ws h r wd ts part cur written h' part' r' wd' fl :
+  SInv ws h r wd ts part cur written -> Rstep h part r wd h' part' r' wd' fl ->
+  SInv ws h' r' wd' (ts ++ map TR fl) part' cur written.
+Proof.
+  intros (I1 & I2 & I3 & I4 & I5 & I6 & I7) (A1 & A2 & A3 & A4 & A5 & A6).
+  split.
+  { rewrite tb_app, tb_TR. specialize (A1 (lg0 ++ concat (map (tenure_bytes ws0 id) ts))).
+    rewrite <- app_assoc in A1. rewrite (A1 I1). rewrite <- !app_assoc. reflexivity. }
+  split.
+  { apply Forall_app. split; [exact I2|]. apply Forall_map. eapply Forall_impl; [|exact A2].
+    intros b Hb. exact Hb. }
+  split; [exact I3|]. split; [rewrite A4; exact I4|].
+  split.
+  { intros j w0 w E0 Ej. destruct (I5 j w0 w E0 Ej) as (G1 & G2 & G3 & G4 & G5). unfold WF.
+    rewrite chunks_of_app, chunks_of_TR, app_nil_r.
+    split; [exact G1|]. split; [exact G2|]. split; [exact G3|]. split; [|exact G5].
+    intros Hst. destruct (G4 Hst) as (G41 & G42 & G43 & G44).
+    split; [exact G41|]. split; [exact G42|]. split; [exact G43|].
+    intros Hnh. apply G44. intros Hhj. apply Hnh. unfold holds in *.
+    assert (Hw : isw h = true) by (rewrite Hhj; reflexivity).
+    destruct (A5 Hw) as (-> & _). exact Hhj. }
+  split.
+  { destruct h' as [|j|] eqn:Eh'; cbn [HOLD Rinv] in *.
+    - exact A3.
+    - destruct (isw h) eqn:Ew; [|specialize (A6 eq_refl); discriminate A6].
+      destruct (A5 eq_refl) as (Hh & _ & Hpp). rewrite <- Hh in I6. cbn [HOLD] in I6. rewrite Hpp. exact I6.
+    - apply A3. }
+  intros Hr. rewrite Hr in A3. apply A3.
+Qed.
+End Sys.
